@@ -301,9 +301,11 @@ def analyse(source, filename, spec_owners=None, pinned=False):
                 unknown = True
                 continue
             register(bpath)
-            if bpath and isinstance(w.scopes[bpath[-1]], COMPS) and tuple(path[:len(bpath)]) != tuple(bpath):
-                leaked = True       # the target of a comprehension the read is not part of (finding C05-comp-target-leaks)
             eo = effective_owner(bpath, n.id)
+            if bpath and isinstance(w.scopes[bpath[-1]], COMPS) and tuple(path[:len(bpath)]) != tuple(bpath) and eo == sid(bpath):
+                # the target of a comprehension the read is not part of (finding C05-comp-target-leaks); a walrus inside the
+                # comprehension is not such a target: it belongs to the scope the comprehension is written in and is compared
+                leaked = True
             if eo is None:
                 unknown = True
                 continue
